@@ -519,6 +519,8 @@ type FuncVal struct {
 	Env  map[types.Object]*Cell
 	Pkg  *packages.Package
 	Decl *types.Func
+	// MethodExpr: a method expression T.M (the first argument of a call is the receiver)
+	MethodExpr *types.Func
 }
 
 // mapKey renders a constant key; ok=false when the key is symbolic.
